@@ -14,10 +14,22 @@ import (
 	"strings"
 	"time"
 
+	"github.com/juev/hledger-lsp/internal/analyzer"
 	"github.com/juev/hledger-lsp/internal/parser"
 	"github.com/juev/hledger-lsp/internal/server"
 	"go.lsp.dev/protocol"
 )
+
+// The server keeps ONE Analyzer for its whole life; the per-case ops do the same, so that
+// anything an Analyzer remembers between two analyses meets the next case's oracle.
+var theAnalyzer *analyzer.Analyzer
+
+func longLivedAnalyzer() *analyzer.Analyzer {
+	if theAnalyzer == nil {
+		theAnalyzer = analyzer.New()
+	}
+	return theAnalyzer
+}
 
 func init() {
 	replayers["c02.session"] = func(c *Ctx, m map[string]any) map[string]any {
